@@ -844,7 +844,9 @@ if OS_IS_UNIX:
         Process.start = wraps(Process.start)(  # type: ignore[method-assign]
             _process_start_wrapper
         )
-        Process.run = wraps(Process.run)(  # type: ignore[method-assign]
+        # Not `run()`, which subclasses override (it'd never be called in their
+        # subprocesses, hence they'd never get the locks).
+        Process._bootstrap = wraps(Process._bootstrap)(  # type: ignore[method-assign]
             _process_run_wrapper
         )
 
